@@ -23,8 +23,8 @@ theorem foldl_push_takeRest (ext : Ext) : ∀ (rows : List SVal) (b0 b : B), row
     rw [foldl_push_takeRest ext rest b1 b h, push_takeRest ext x b0 b1 h1]
 
 /-- **C18_ser_blame** (PARTIAL: values of the fragment `frag` — `Some` / newtype layers, `None`, unit, every scalar call,
-bytes, sequences, struct records, nested arbitrarily, into EVERY builder family; missing: tuples / tuple structs, maps and
-the four variant calls, which `frag` excludes).  A builder created by `build_builder` at `path` for a field of type `dt`,
+bytes, sequences, struct records, unit and newtype variants, nested arbitrarily, into EVERY builder family; missing: tuples /
+tuple structs, maps, tuple and struct variants, which `frag` excludes).  A builder created by `build_builder` at `path` for a field of type `dt`,
 after any successfully pushed rows, under the hypotheses of `push_err_iff`: an error of the next `push` is annotated
 `field` = `render path segs`, `data_type` = the label of the type at `segs`, for a position `segs` of the schema that
 `Spec.blameDT` blames for this value — or it is the one cell where builders and specification read `innermost`
